@@ -79,6 +79,9 @@ def thetas(draw):
   return kind, v
 
 
+EXCLUDED = {'inertial-alt-orientation': 0}
+
+
 @st.composite
 def body_models(draw):
   """Small MJCF with named bodies b0..b{n-1}; returns (xml, names)."""
@@ -101,6 +104,9 @@ def body_models(draw):
     if mode in ('inertial', 'both'):
       # orientation spelled as quat only: any other spelling (euler/axisangle/...) hits the known-finding candidate
       # 'apply-inertial-alt-orientation' (see probe in main); excluded here by construction.
+      spelling = draw(st.sampled_from(['quat', 'quat', 'euler', 'axisangle']))
+      if spelling != 'quat':
+        EXCLUDED['inertial-alt-orientation'] += 1      # counted; replaced by the quat spelling
       q = np.array([num(-1, 1), num(-1, 1), num(-1, 1), num(-1, 1)])
       q = q / np.linalg.norm(q) if np.linalg.norm(q) > 0.1 else np.array([1.0, 0, 0, 0])
       s += '<inertial pos="%g %g %g" mass="%g" diaginertia="%g %g %g" quat="%.17g %.17g %.17g %.17g"/>' % (
@@ -292,6 +298,7 @@ def main(ck):
 
   inbox = thetas().filter(lambda kv: True)
   ck.run_hypothesis(test_apply, st.tuples(body_models(), inbox), ck.budget(150, 5000), name='apply')
+  ck.extra['excluded_by_construction'] = dict(EXCLUDED)
   ck.extra['tolerance'] = dict(K_FWD=K_FWD, K_RT=K_RT, K_MASS=K_MASS, REL_INERTIA=REL_INERTIA, COND_MAX=COND_MAX,
                                **{'worst_' + k: v for k, v in worst.items()})
 
